@@ -32,6 +32,7 @@ import (
 	"testing/synctest"
 	"time"
 
+	"github.com/google/uuid"
 	"github.com/osrg/gobgp/v4/api"
 	"github.com/osrg/gobgp/v4/internal/pkg/table"
 	"github.com/osrg/gobgp/v4/internal/verif/polcfg"
@@ -262,6 +263,7 @@ type world struct {
 	polGen   int
 	vrfGen   int
 	vrfs     map[string]bool
+	uuids    map[string]uuid.UUID // prefix -> what AddPath returned for the route injected last
 	watchMu  sync.Mutex
 	watching bool
 	watch    map[string]string // prefix -> "source attrs": the best-path stream replayed (with the global option "watch")
@@ -336,6 +338,13 @@ func (w *world) neighbor(n sx.Node) *oc.Neighbor {
 		for i := range nc.AfiSafis {
 			nc.AfiSafis[i].MpGracefulRestart.Config.Enabled = true
 		}
+	}
+	if ok, v := hasOpt(n, 3, "restarting"); ok {
+		// the speaker itself has restarted (gobgpd -r): restarting=<deferral time>
+		var k int
+		fmt.Sscan(v, &k)
+		nc.GracefulRestart.State.LocalRestarting = true
+		nc.GracefulRestart.Config.DeferralTime = uint16(k)
 	}
 	if ok, v := hasOpt(n, 3, "llgr"); ok {
 		var k int
@@ -1027,13 +1036,25 @@ func (w *world) step(n sx.Node) {
 	case "apiadd":
 		r := n.At(1)
 		nl, _ := bgp.NewIPAddrPrefix(netip.MustParsePrefix(r.At(1).Atom))
-		_, err := w.s.AddPath(apiutil.AddPathRequest{Paths: []*apiutil.Path{{Family: bgp.RF_IPv4_UC, Nlri: nl, Attrs: routeAttrs(r, "0.0.0.0")}}})
+		resp, err := w.s.AddPath(apiutil.AddPathRequest{Paths: []*apiutil.Path{{Family: bgp.RF_IPv4_UC, Nlri: nl, Attrs: routeAttrs(r, "0.0.0.0")}}})
 		if err != nil {
 			w.out = append(w.out, "(apiadd-error)")
+		} else if len(resp) == 1 && resp[0].Error == nil {
+			if w.uuids == nil {
+				w.uuids = map[string]uuid.UUID{}
+			}
+			w.uuids[r.At(1).Atom] = resp[0].UUID
 		}
 	case "apidel":
+		// (apidel ROUTE) deletes by path; (apidel ROUTE uuid) by the UUID that AddPath returned for the prefix
 		r := n.At(1)
 		nl, _ := bgp.NewIPAddrPrefix(netip.MustParsePrefix(r.At(1).Atom))
+		if id, ok := w.uuids[r.At(1).Atom]; ok && n.Len() > 2 && n.At(2).Atom == "uuid" {
+			delete(w.uuids, r.At(1).Atom)
+			w.s.DeletePath(apiutil.DeletePathRequest{UUIDs: []uuid.UUID{id}})
+			return
+		}
+		delete(w.uuids, r.At(1).Atom)
 		w.s.DeletePath(apiutil.DeletePathRequest{Paths: []*apiutil.Path{{Family: bgp.RF_IPv4_UC, Nlri: nl, Attrs: routeAttrs(r, "0.0.0.0")}}})
 	case "enable":
 		if p := w.peers[n.At(1).Atom]; p != nil {
